@@ -1,6 +1,9 @@
 package gw
 
 import (
+	"encoding/hex"
+	"strings"
+
 	"github.com/andydunstall/piko/pkg/gossip"
 	"verifharness/internal/mc"
 )
@@ -288,6 +291,34 @@ func S11(maxPacket, ops, digests, dups, holds int) *Scenario {
 	}
 }
 
+// Raw: keys and values written "0x:<hex>" in a scenario stand for those bytes
+// (events are stored as JSON, which cannot carry strings that are not UTF-8).
+func Raw(s string) string {
+	if strings.HasPrefix(s, "0x:") {
+		if b, err := hex.DecodeString(s[3:]); err == nil {
+			return string(b)
+		}
+	}
+	return s
+}
+
+// S12: keys and values are byte strings, not text: a key and a value that are
+// not valid UTF-8 (an endpoint id taken from a percent-encoded URL path may
+// hold any bytes) are written, overwritten and deleted like any other.
+func S12(maxPacket, ops, digests, dups, holds int) *Scenario {
+	return &Scenario{
+		Name: "S12-binary-keys-values", IDs: []string{"nX", "nO"}, MaxPacket: maxPacket,
+		Init: []Event{ev("join", 1, 0)},
+		Ops: map[int][]Event{0: {
+			{Kind: "up", K: "0x:6bff", V: "1"}, {Kind: "up", K: "a", V: "0x:fe80"}, {Kind: "up", K: "a", V: "ok"}, {Kind: "del", K: "0x:6bff"},
+		}},
+		MaxOps:  map[int]int{0: ops},
+		Digests: [][2]int{{1, 0}, {0, 1}}, MaxDigests: digests,
+		Perms: "id", MaxDups: dups, MaxInflight: 3, MaxHolds: holds,
+		Oracles: OracleSet{C02: true, C14: true},
+	}
+}
+
 // ByName rebuilds a scenario from its name and parameters (used by replay).
 type Params struct {
 	Name                                           string
@@ -323,6 +354,8 @@ func Build(p Params) *Scenario {
 		sc = S10(p.MaxPacket, p.Ops, p.Digests, p.Dups, p.Holds)
 	case "S11":
 		sc = S11(p.MaxPacket, p.Ops, p.Digests, p.Dups, p.Holds)
+	case "S12":
+		sc = S12(p.MaxPacket, p.Ops, p.Digests, p.Dups, p.Holds)
 	default:
 		panic("unknown scenario " + p.Name)
 	}
